@@ -1,7 +1,8 @@
 (* C20 model runner: one case per line on stdin, one result per line on stdout.
    P <hex>                   registry.ParseReference
    R <hexreg> <hexrepo> <hex>  Repository.ParseReference with base
-   U <kind> <plain> <hexreg> <hexrepo> <hexref>   URL builders *)
+   U <kind> <plain> <hexreg> <hexrepo> <hexref>   URL builders
+   O <op> <plain> <hexreg> <hexrepo> <hexinput> <hexdescdigest>   requests of a reference-taking operation *)
 let show_verdict v =
   match v with
   | VOk r -> Printf.sprintf "OK %s %s %s" (hex_of_str r.r_registry) (hex_of_str r.r_repository) (hex_of_str r.r_reference)
@@ -29,5 +30,15 @@ let () =
         | "upload" -> url_upload p r
         | _ -> failwith "kind" in
       Printf.printf "%s URL %s\n" id (hex_of_str u)
+    | [id; "O"; op; plain; hr; hp; hs; hd] ->
+      let o = match op with
+        | "mresolve" -> OpMResolve | "mfetchref" -> OpMFetchRef | "tag" -> OpTag
+        | "pushref" -> OpPushRef | "bresolve" -> OpBResolve | "bfetchref" -> OpBFetchRef
+        | _ -> failwith "op" in
+      (match op_requests_verdict o (plain = "1") (str_of_hex hr) (str_of_hex hp) (str_of_hex hs) (str_of_hex hd) with
+       | OUnjudged -> Printf.printf "%s UNJUDGED\n" id
+       | ORefused -> Printf.printf "%s REQS\n" id
+       | OReqs l -> Printf.printf "%s REQS%s\n" id
+                      (String.concat "" (List.map (fun (m, u) -> " " ^ hex_of_str m ^ ":" ^ hex_of_str u) l)))
     | [] -> ()
     | _ -> Printf.printf "BADLINE %s\n" l)
